@@ -24,7 +24,7 @@ FILLERS = ["zzz", "qqq", "lorem", "beers", "burgers", "gift", "pizza", "buy", "k
            "party", "zahnarzt", "geburtstag", "urlaub", "büro", "workshop", "deploy", "backup", "taxes", "groceries", "vet", "haircut", "books",
            "code", "ship", "plan", "write", "read", "walk", "run", "swim", "meeting", "call",
            # decomposed (non-NFC) spellings, as some platforms deliver them: offsets must still be those of the text as given
-           "Bu\u0308ro", "cafe\u0301", "nai\u0308ve", "u\u0308ben", "Ko\u0308ln"]
+           "Bu\u0308ro", "nai\u0308ve", "u\u0308ben", "Ko\u0308ln", "scho\u0308n", "bru\u0308cke"]
 TSS = ["2021-03-10T12:43:30", "2020-02-29T23:59:00", "2019-12-31T08:00:00", "2024-02-28T23:10:00"]
 
 
@@ -48,8 +48,16 @@ def gen_cases(tier, seed):
             cls = c.split("/")[0]
             ts = r.choice(TSS)
         npre, npost = r.choice([(0, 1), (1, 0), (1, 1), (2, 0), (0, 2), (3, 3), (2, 1), (0, 3), (3, 0), (0, 0)])
-        pre = [r.choice(FILLERS) for _ in range(npre)]
-        post = [r.choice(FILLERS) for _ in range(npost)]
+        if i % 12 == 7:
+            # "no matter how many such words": a long note before and/or after the expression (offsets beyond 256, 1000)
+            npre, npost = r.choice([(60, 0), (45, 3), (0, 70), (120, 40), (250, 0)])
+            if i % 24 == 7:
+                # notations whose parts touch without a blank: adjacency is decided on raw offsets there
+                t = r.choice(["tomorrow 8-10", "3pm-5pm", "18:00-20:00", "12.-14.05.", "Montagmorgen", "5.5.-7.5.2021", "9-5", "morgen 8-10 uhr", "8h-10h", "12.05.2021-14.05.2021"])
+                ts, cls = r.choice(TSS), "touching"
+        pool = FILLERS if max(npre, npost) <= 3 else [f for f in FILLERS if f not in ("meeting", "call")]
+        pre = [r.choice(pool) for _ in range(npre)]
+        post = [r.choice(pool) for _ in range(npost)]
         cases.append({"e": t, "ts": ts, "pre": pre, "post": post, "c": cls})
     return cases
 
